@@ -40,3 +40,58 @@ package srv
 //@   option ghost any
 //@   option noframe
 //@   requires s != nil
+
+// The shutdown goroutine: Shutdown runs exactly once, and only after the
+// service context ended; the shutdown signal is closed afterwards, also when
+// Shutdown panics (the panic is recovered into the collector, never escapes).
+//@ func (*Service).Start$1$2
+//@   props C10
+//@   option noframe
+//@   option ghost any
+//@   option callbacks-may-panic
+//@   option closes-after shutdownSignal shutdown
+//@   requires s != nil && ec != nil && ec == s.ec && shutdown != nil && shutdownSignal != nil && !closedch(shutdownSignal) && ctx != nil && !held(s.wg.mu) && !held(ec.mu) && s.wg.credit >= 1
+//@   ensures closedch(shutdownSignal) && calls(shutdown) == old(calls(shutdown)) + 1 && done(ctx)
+
+// Without a Shutdown hook: the signal is closed only after the service
+// context ended.
+//@ func (*Service).Start$1$3
+//@   props C10
+//@   option noframe
+//@   option ghost any
+//@   requires s != nil && ec != nil && ec == s.ec && shutdownSignal != nil && !closedch(shutdownSignal) && ctx != nil && !held(s.wg.mu) && !held(ec.mu) && s.wg.credit >= 1
+//@   ensures closedch(shutdownSignal) && done(ctx)
+
+// The service goroutine: Run is invoked exactly once; the service context is
+// cancelled after Run returned (also when it panicked); Cleanup, if set, runs
+// exactly once, after Run returned and after the shutdown goroutine signalled
+// completion; isFinished is stored before isRunning is cleared (protocol
+// steps, invariant J); the handler signal and then the main signal are closed;
+// a panic in Run or Cleanup is recovered into the collector and never escapes.
+//@ func (*Service).Start$1$4
+//@   props C10
+//@   option noframe
+//@   option ghost any
+//@   option callbacks-may-panic
+//@   option calls-after s.cancel s.Run; cleanup s.Run
+//@   option calls-when cleanup recvready(shutdownSignal) && closedch(ehSignal)
+//@   requires s != nil && s.Run != nil && s.cancel != nil && ec != nil && ec == s.ec && ctx != nil && s.mylate == 0
+//@   requires mainSignal != nil && ehSignal != nil && shutdownSignal != nil && mainSignal != ehSignal && mainSignal != shutdownSignal && ehSignal != shutdownSignal && !closedch(mainSignal) && !closedch(ehSignal)
+//@   requires !held(s.wg.mu) && !held(ec.mu) && s.wg.credit >= 1
+//@   ensures calls(s.Run) == old(calls(s.Run)) + 1 && calls(s.cancel) >= old(calls(s.cancel)) + 1
+//@   ensures s.Cleanup != nil ==> calls(s.Cleanup) == old(calls(s.Cleanup)) + 1
+//@   ensures closedch(mainSignal) && closedch(ehSignal) && recvready(shutdownSignal)
+//@   ensures s.mylate == 0
+
+// The error-handler goroutine: the handler runs at most once, only after the
+// main signal (service finished, Cleanup returned) and the handler signal were
+// received, and only with a non-nil aggregate; its panic never escapes.
+//@ func (*Service).Start$1$1
+//@   props C10
+//@   option noframe
+//@   option ghost any
+//@   option callbacks-may-panic
+//@   option calls-when eh recvready(mainSignal) && recvready(ehSignal)
+//@   option calls-once eh
+//@   requires s != nil && ec != nil && ec == s.ec && mainSignal != nil && ehSignal != nil && !held(s.wg.mu) && !held(ec.mu) && s.wg.credit >= 1
+//@   ensures recvready(mainSignal) && recvready(ehSignal)
